@@ -169,6 +169,8 @@ def build_class(kind, name, fields, *, total=True):  # noqa: C901, PLR0912, PLR0
                 opts.append(f"default=D{i}")
             elif f.req == "factory":
                 opts.append(f"default=D{i}")
+            if i % 2 == 1:
+                opts.insert(0, repr(f"col_{f.name}"))     # DB column named differently from the mapped attribute (defect #57)
             lines.append(f"    {f.name}: Mapped[{ann[i]}] = mapped_column({', '.join(opts)})")
     elif kind == "init":
         params, body = [], []
